@@ -1,0 +1,19 @@
+//go:build verif
+
+// Package verifhook re-exports internal packages for the external
+// verification harness. It is compiled only with the "verif" build tag.
+package verifhook
+
+import (
+	"github.com/WICG/webpackage/go/internal/cbor"
+)
+
+type CborEncoder = cbor.Encoder
+type CborDecoder = cbor.Decoder
+type CborMapEntryEncoder = cbor.MapEntryEncoder
+
+var CborNewEncoder = cbor.NewEncoder
+var CborNewDecoder = cbor.NewDecoder
+var CborNewMapEntry = cbor.NewMapEntry
+var CborGenerateMapEntry = cbor.GenerateMapEntry
+var CborDeterministic = cbor.Deterministic
